@@ -26,7 +26,44 @@ fn gen_attr_value(t: &mut Tape) -> CVal {
     }
 }
 
+const PROBE_TAG: u32 = 0xFFFF_FF09;
+
+/// Fixed files around one node with several outgoing edges: an attribute for an edge that does
+/// not exist fails whatever other edges its source has; a repeated `edge` statement makes one edge.
+fn probe(i: usize) -> CaseOutcome {
+    let lazy = i % 2 == 1;
+    let (label, body, want): (&str, &str, Result<&str, &str>) = match i / 2 {
+        0 => ("attribute-for-a-missing-edge-below-an-existing-one", "  edge a -> c\n  attr (a -> b) k = 1\n", Err("UndefinedEdge")),
+        1 => ("attribute-for-a-missing-edge-above-an-existing-one", "  edge a -> b\n  attr (a -> c) k = 1\n", Err("UndefinedEdge")),
+        2 => ("attribute-for-a-missing-edge-between-existing-ones", "  edge b -> a\n  edge b -> c\n  attr (b -> b) k = 1\n", Err("UndefinedEdge")),
+        _ => ("repeated-edge-statement", "  edge a -> c\n  edge a -> b\n  edge a -> c\n  attr (a -> c) k = 1\n", Ok("3 nodes, 2 edges, 1 attributes")),
+    };
+    let dsl = format!("(module) @_m {{\n  node a\n  node b\n  node c\n{}}}\n", body);
+    let source = "pass\n";
+    let file = match load_valid("C09", &dsl) {
+        Ok(f) => f,
+        Err(o) => return o,
+    };
+    let tree = pysrc::parse(source);
+    let index = TreeIndex::new(&tree);
+    let (got, _) = run_capped(&file, &tree, &index, source, &BTreeMap::new(), &ExecOpts { lazy, debug: None }, 100_000);
+    let mode = if lazy { "lazy" } else { "strict" };
+    let failure = |sig: &str, msg: String| CaseOutcome::Fail(Failure::new(format!("C09:{}:probe:{}", mode, sig), msg, json!({"dsl": dsl, "source": source, "lazy": lazy})));
+    match (&got, want) {
+        (LibRun::Err(e), Err(kind)) if variant_name(root_cause(e)) == kind => {}
+        (LibRun::Ok(g), Ok(summary)) if g.summary() == summary => {}
+        (LibRun::Panic(p), _) => return failure(&p.signature(), p.message.clone()),
+        (LibRun::Err(e), _) => return failure("unexpected-error", format!("{}: expected {:?}, the run failed with {}", label, want, e)),
+        (LibRun::Ok(g), _) => return failure("wrong-result", format!("{}: expected {:?}, the run returned {}", label, want, g.summary())),
+        _ => return failure("bad-run", format!("{}: poll bound or inconsistent graph", label)),
+    }
+    CaseOutcome::Pass(CaseReport { fingerprint: fingerprint(&format!("c09-probe{}", i)), nontrivial: true, labels: vec![format!("probe:{}", label)], counters: vec![], sample: None, evaluations: 1 })
+}
+
 pub fn case(tape: &[u32]) -> CaseOutcome {
+    if tape.len() == 2 && tape[0] == PROBE_TAG {
+        return probe(tape[1] as usize);
+    }
     let (aux, main) = split_tape(tape);
     let mut t = Tape::new(&aux);
     let mut gt = Tape::new(&main);
@@ -232,7 +269,7 @@ pub fn case(tape: &[u32]) -> CaseOutcome {
 
 pub fn spec(tier: &str) -> Spec {
     let mut s = Spec::new("C09", tier, 4_000, 50_000, 1500);
-    s.rule = "histories on one Graph: optionally pre-populated through the public API (1-5 nodes, attributed nodes and edges), then 1-3 execute_into calls, each with its own generated collision-heavy program (shared anchor nodes, repeated edge statements, re-assigned attributes; lazy calls stay in the order-insensitive fragment), mode chosen per call, and 1-3 of the graph's existing nodes passed back in as GraphNode globals; one tree per history. Oracle: the reference interpreter advances a map/set model of the graph from the state before the call; after a successful call the observed graph must be isomorphic to the model with all pre-existing nodes fixed in place (so every existing node, edge and attribute value is intact and new nodes are numbered after them) and iter_edges must be strictly ascending; a call the model says must fail must fail; after a failed call only structural invariants are checked and the model is re-synchronised. Non-trivial: one edge created by >=2 statements/matches, or a later call (or a call on a pre-populated attributed edge) that re-creates an existing edge or re-assigns an attribute. Distinct = fingerprint of the whole history.".into();
+    s.rule = "histories on one Graph: optionally pre-populated through the public API (1-5 nodes, attributed nodes and edges), then 1-3 execute_into calls, each with its own generated collision-heavy program (shared anchor nodes, repeated edge statements, re-assigned attributes; lazy calls stay in the order-insensitive fragment), mode chosen per call, and 1-3 of the graph's existing nodes passed back in as GraphNode globals; one tree per history. Oracle: the reference interpreter advances a map/set model of the graph from the state before the call; after a successful call the observed graph must be isomorphic to the model with all pre-existing nodes fixed in place (so every existing node, edge and attribute value is intact and new nodes are numbered after them) and iter_edges must be strictly ascending; a call the model says must fail must fail; after a failed call only structural invariants are checked and the model is re-synchronised. Eight fixed probes (an attribute for a missing edge whose source has other edges below / above / around the missing sink, a repeated edge statement; strict and lazy). Non-trivial: one edge created by >=2 statements/matches, or a later call (or a call on a pre-populated attributed edge) that re-creates an existing edge or re-assigns an attribute. Distinct = fingerprint of the whole history.".into();
     s.assumptions = vec!["all calls of one history use the same tree (syntax-node references are resolved through one tree index)".into(), "graph state after a failed execute_into is unspecified beyond structural consistency".into()];
     s
 }
@@ -240,6 +277,8 @@ pub fn spec(tier: &str) -> Spec {
 pub fn run_check(tier: &str) -> i32 {
     let started = std::time::Instant::now();
     let spec = spec(tier);
-    let result = run_tapes(&spec, case);
+    let probes: Vec<usize> = (0..8).collect();
+    let rp = run_fixed(&spec, &probes, |i| probe(*i), |i| vec![PROBE_TAG, *i as u32]);
+    let result = merge_results(rp, run_tapes(&spec, case));
     finish(&spec, result, started)
 }
